@@ -553,7 +553,9 @@ func Rand(site string) uint32 {
 		return 1
 	}
 	if s.Cfg.RandFn != nil {
-		return s.Cfg.RandFn(site)
+		v := s.Cfg.RandFn(site)
+		Note(uint64(v))
+		return v
 	}
 	return 1
 }
